@@ -4,6 +4,8 @@ import CuqiVerif.Model.C08Adapt
 import CuqiVerif.Model.C08_stat
 import CuqiVerif.Model.C08_abort
 import CuqiVerif.Model.C08_history
+import CuqiVerif.Model.C08_config
+import CuqiVerif.Model.C08_quartic
 open CuqiVerif CuqiVerif.Proto CuqiVerif.C08
 
 /-
@@ -26,6 +28,9 @@ open CuqiVerif CuqiVerif.Proto CuqiVerif.C08
     -> done | <nutsabort output> :: <nuts output of the transition from the abort state with momentum r2, slice offset e2, draws uniforms2>
   history <guard> <maxDepth> <eps> <P> <b> <wall> <x0> then per operation: `S <r> <e> <uniforms>` | `R` (reinitialize) | `C` (state round trip, same object) | `CO <x0'> <eps0'>` (into another object) | `T <P> <b> <wall> <here>` (target replaced; here=1: initial_point = current_point; then reinitialize())
     -> per operation, joined by ` :: `: x | logd | grad | acc | consumed | margin | max_depth in force | step size in force   (acc/consumed/margin `-` for R and C)
+  config <maxdepth|stepsize|optacc|legacy> <value> [Nb]   value: none T F i:<n> n:<n> (numpy int) f:<q> nan inf -inf cx str
+    -> ok <value> | TypeError | ValueError | adaptive | findonly | fixed <value>
+  nutsq <guard> <maxDepth> <eps> <P> <b> <c> <x> <r> <e> <uniforms>   (quartic target -x'Px/2 + b'x - c/4 sum x^4) -> same fields as nuts
   nutsstat <same arguments as nuts>   -> ones | exps | zeros | nans | n_alpha | margin   (of the last doubling executed; `unset` if none)
 -/
 def fmtXR : XR → String
@@ -122,6 +127,23 @@ def historyOut (guard : PS → Bool) : Target × HState → List HOp2 → List S
         | none => "err | err | 0"
       | _ => "- | - | -"
     s!"{fmtVec s'.x} | {fmtXR s'.logd} | {fmtVec s'.grad} | {info} | {s'.md} | {fmtRat s'.eps}" :: historyOut guard ts' ops
+
+def parsePyVal (s : String) : Option PyVal :=
+  match s with
+  | "none" => some .none | "T" => some (.bool true) | "F" => some (.bool false)
+  | "nan" => some .nan | "inf" => some .pinf | "-inf" => some .ninf | "cx" => some .complex | "str" => some .str
+  | _ => match s.splitOn ":" with
+    | ["i", n] => (parseInt n).map .int
+    | ["n", n] => (parseInt n).map .npint
+    | ["f", q] => (parseRat q).map .float
+    | _ => none
+
+def fmtPyVal : PyVal → String
+  | .none => "none" | .bool true => "T" | .bool false => "F" | .int n => s!"i:{n}" | .npint n => s!"n:{n}"
+  | .float q => s!"f:{fmtRat q}" | .nan => "nan" | .pinf => "inf" | .ninf => "-inf" | .complex => "cx" | .str => "str"
+
+def fmtVerdict {α} (f : α → String) : Verdict α → String
+  | .ok v => s!"ok {f v}" | .typeError => "TypeError" | .valueError => "ValueError"
 
 def step : List String → String
   | ["trace", g, md, eps, P, b, wall, x, r, e, us] =>
@@ -264,6 +286,32 @@ def step : List String → String
       | .fin _ => " :: ".intercalate (historyOut guard (t, hInit t md eps x0) ops)
       | _ => "err-nonfinite-start"
     | _, _, _, _, _, _, _, _ => "bad-op"
+  | ["config", "maxdepth", v] => match parsePyVal v with
+    | some v => fmtVerdict (fun n => toString n) (setMaxDepth v) | none => "bad-op"
+  | ["config", "stepsize", v] => match parsePyVal v with
+    | some v => fmtVerdict fmtPyVal (setStepSize v) | none => "bad-op"
+  | ["config", "optacc", v] => match parsePyVal v with
+    | some v => fmtVerdict fmtPyVal (setOptAcc v) | none => "bad-op"
+  | ["config", "legacy", v, nb] => match parsePyVal v, parseNat nb with
+    | some v, some nb => match legacyMode v nb with
+      | .valueError => "ValueError" | .adaptive => "adaptive" | .findOnly => "findonly" | .fixed w => s!"fixed {fmtPyVal w}"
+    | _, _ => "bad-op"
+  | ["nutsq", g, md, eps, P, b, cq, x, r, e, us] =>
+    match parseNat g, parseNat md, parseRat eps, parseMat P, parseVec b, parseRat cq,
+          parseVec x, parseVec r, parseRat e, parseVec us with
+    | some g, some md, some eps, some P, some b, some cq, some x, some r, some e, some us =>
+      let t : QTarget := { P := P, b := b, c := cq }
+      match t.logd x with
+      | .fin l0 =>
+        let z0 : PS := { x := x, r := r, logd := .fin l0, grad := t.grad x }
+        let ham0 := l0 - (1/2) * dotQ r r
+        let c := qCtx t eps (ham0 - e) ham0
+        let guard : PS → Bool := if g = 1 then (fun z => z.logd.isFinite) else (fun _ => true)
+        let st := nutsStep c guard md z0 us
+        let diffs := st.last.map (fun z => fmtXR ((c.ham z).subRat ham0))
+        s!"{fmtBool st.acc} | {fmtVec st.cur.x} | {st.nodes} | {us.length - st.us.length} | {st.j} | {st.n} | {",".intercalate diffs} | {fmtRat (margin c st.last)} | {fmtXR st.cur.logd} | {fmtVec st.cur.grad}"
+      | _ => "err-nonfinite-start"
+    | _, _, _, _, _, _, _, _, _, _ => "bad-op"
   | ["adaptexp", le0, mu, delta, nb, interval, n, als, sqs, ets] =>
     match parseRat le0, parseRat mu, parseRat delta, parseNat nb, parseNat interval, parseNat n,
           parseVec als, parseVec sqs, parseVec ets with
